@@ -8,12 +8,13 @@ pub mod c02;
 pub mod conf;
 pub mod gens;
 pub mod hist;
+pub mod mem;
 pub mod misc;
 pub mod ops;
 pub mod trav;
 pub mod weighted;
 
-pub const ALL: &[&str] = &["C01", "C02", "C03", "C04", "C05", "C06", "C07", "C08", "C09", "C10", "C11", "C12", "C14", "C15", "C16", "C17", "C18", "C19", "C20"];
+pub const ALL: &[&str] = &["C01", "C02", "C03", "C04", "C05", "C06", "C07", "C08", "C09", "C10", "C11", "C12", "C13", "C14", "C15", "C16", "C17", "C18", "C19", "C20"];
 
 pub fn report(prop: &str, tier: &str, seed: u64, rule: &str, assumptions: &[&str], bounds: Value) -> Report {
     Report {
@@ -42,6 +43,7 @@ pub fn build(prop: &str, tier: &str, seed: u64) -> Option<Check> {
         "C10" => Some(trav::c10(tier, seed)),
         "C11" => Some(ops::c11(tier, seed)),
         "C12" => Some(ops::c12(tier, seed)),
+        "C13" => Some(mem::c13(tier, seed)),
         "C14" => Some(gens::c14(tier, seed)),
         "C15" => Some(gens::c15(tier, seed)),
         "C16" => Some(gens::c16(tier, seed)),
@@ -56,6 +58,13 @@ pub fn replay_post(prop: &str, case: &CaseId, file: &Value) -> i32 {
     if case.kind.starts_with("post:hist") {
         crate::core::silence_panics();
         let rc = hist::replay(file);
+        if rc == 1 {
+            println!("VIOLATION property={prop} replay=(given file)");
+        }
+        return rc;
+    }
+    if case.kind == "post:mem" {
+        let rc = mem::replay(case);
         if rc == 1 {
             println!("VIOLATION property={prop} replay=(given file)");
         }
